@@ -38,6 +38,16 @@ Definition i_neg (w a : Z) : Z := wrap w (- a).
 Definition i_rem (sg : bool) (w a b : Z) : option Z :=
   if b =? 0 then None
   else Some (if sg then wrap w (Z.rem (sgn w a) (sgn w b)) else a mod b).
+(* the plain operators `/` and `%` on integers: a zero divisor panics, and so does the one overflowing case
+   MIN / -1 (MIN % -1) of the signed types - in EVERY build profile ("attempt to divide with overflow") *)
+Definition i_div_op (sg : bool) (w a b : Z) : option Z :=
+  if b =? 0 then None
+  else if sg && (a =? 2 ^ (w - 1)) && (b =? 2 ^ w - 1) then None
+  else i_div sg w a b.
+Definition i_rem_op (sg : bool) (w a b : Z) : option Z :=
+  if b =? 0 then None
+  else if sg && (a =? 2 ^ (w - 1)) && (b =? 2 ^ w - 1) then None
+  else i_rem sg w a b.
 (* comparisons on the type's reading of the patterns *)
 Definition i_lt (sg : bool) (w a b : Z) : bool := ival sg w a <? ival sg w b.
 Definition i_le (sg : bool) (w a b : Z) : bool := ival sg w a <=? ival sg w b.
